@@ -27,13 +27,17 @@ func Harness_C08_run() {
 	verifMapOrders(false)
 	log := &verifLog{gates: map[string]chan struct{}{}}
 	mux := verifMap{}
-	for _, name := range []string{"call", "note", "n0", "again"} {
+	noteNames := []string{"note", "note1", "note2", "note3"} // the i-th notification sent calls noteNames[i]
+	for _, name := range append([]string{"call", "n0", "again"}, noteNames...) {
 		mux[name] = log.handler(name, nil, nil)
 	}
 	log.gates["call"] = make(chan struct{})
 	gateNote := nondetBool("gate-note")
 	if gateNote {
-		log.gates["note"] = make(chan struct{})
+		g := make(chan struct{})
+		for _, name := range noteNames {
+			log.gates[name] = g
+		}
 	}
 	s := NewServer(mux, &ServerOptions{Concurrency: 2, AllowPush: nondetBool("push")})
 	closeUnblocks := nondetBool("close-unblocks-recv")
@@ -47,15 +51,22 @@ func Harness_C08_run() {
 		ch.in <- verifReq("1", "call")
 	}
 	nnotes := nondetChoice("notes", 3)
-	if gateNote && nnotes == 2 && nondetBool("third-note") {
-		nnotes = 3 // the first runs (gated), the second waits at the barrier, the third stays queued
+	if gateNote && nnotes == 2 {
+		// the first runs (gated), the second waits at the barrier, further ones stay queued
+		nnotes += nondetChoice("queued-notes", 3)
 	}
+	// each notification as a single object or as a one-element batch
+	notesAsBatches := nnotes > 0 && nondetBool("notes-as-batches")
 	noteID := ""
 	if nondetBool("notes-spell-null-id") {
 		noteID = "null" // "id":null counts as absent: still a notification
 	}
 	for i := 0; i < nnotes; i++ {
-		ch.in <- verifReq(noteID, "note")
+		if notesAsBatches {
+			ch.in <- tokArray([]json.RawMessage{verifReq(noteID, noteNames[i])})
+		} else {
+			ch.in <- verifReq(noteID, noteNames[i])
+		}
 	}
 	if nondetBool("bad-before") {
 		ch.in <- verifBadRecord(nondetChoice("badkind", 3))
@@ -138,7 +149,19 @@ func Harness_C08_run() {
 		vassert(r.ctxDone, "C08: an in-flight call handler has seen its context cancelled")
 		reach("call-cancelled")
 	}
-	vassert(log.count("note") == nnotes, "C08: every valid notification received before the stop has been handed to its handler")
+	ran := 0
+	for _, name := range noteNames {
+		vassert(log.count(name) <= 1, "C08: a notification is handed to its handler once")
+		ran += log.count(name)
+	}
+	vassert(ran == nnotes, "C08: every valid notification received before the stop has been handed to its handler")
+	if !mixed {
+		// ... one after the other, in arrival order (C03 holds across the stop)
+		for i := 1; i < nnotes; i++ {
+			a, b := log.find(noteNames[i-1]), log.find(noteNames[i])
+			vassert(a != nil && b != nil && a.exit < b.enter, "C03/C08: notifications retained across the stop still run in arrival order, one after the other")
+		}
+	}
 	vassert(len(s.used) == 0, "C08: no reservation survives the stop")
 
 	// restart on a fresh channel
